@@ -55,7 +55,10 @@ def decorate(spec, variant):
             c["lim"] = copy.deepcopy(APPL_LIM.get(c["k"], ALL_LIM))
             if variant == 3:  # a negative-rail window written in the rail's polarity: [-min, -max] is NOT ascending
                 c["lim"] = {k: ([-v[0], -v[1]] if k != "tp" else v) for k, v in c["lim"].items()}
-    if variant % 2:
+    if variant == 5:   # open-ended limits: +/- infinity is a legal bound (written as Infinity in the file)
+        for c in sp["comps"]:
+            c["lim"] = {k: ([v[0], float("inf")] if k != "tp" else [float("-inf"), v[1]]) for k, v in copy.deepcopy(APPL_LIM.get(c["k"], ALL_LIM)).items()}
+    if variant % 2 and variant != 5:
         for c in sp["comps"]:
             c["p"] = [rails.get(p, p) for p in c["p"]]
     assign = {}
@@ -98,6 +101,11 @@ def check_case(case):
     elif fam == "version":
         spec = kind_spec("Converter", dict(vo=3.3, eff=0.9), True)
     s = build_holes(spec) if case.get("holes") else build(spec)
+    if case.get("delete"):   # the intermediate element of one mux input is deleted (del_childs=False): its feeder takes its slot; THEN the system is saved
+        from .c05 import spec_without
+        s.del_comp(case["delete"], del_childs=False)
+        spec = spec_without(spec, case["delete"])
+        res.classes.add("deleted-input")
     if case.get("remux"):   # an analysis, then the mux is deleted and re-added with reversed priority, THEN saved
         from ..muxsys import apply_remux
         try:
@@ -213,6 +221,7 @@ def gen_cases(tier):
             # the same structure reached through an edit history that frees and re-uses node indices (save() walks the graph by index)
             yield dict(fam="tree", f=f, pal=pal, variant=0, pol=1, holes=True)
             yield dict(fam="tree", f=f, pal=pal, variant=4, pol=1)
+            yield dict(fam="tree", f=f, pal=pal, variant=5, pol=1)
             yield dict(fam="tree", f=f, pal=pal, variant=1, pol=1, resave=True)
     if tier == "quick":
         for f in itertools.islice(mid.iter_forests(3), 0, None, 5):
@@ -227,6 +236,11 @@ def gen_cases(tier):
         for inputs in itertools.product(INPUT_OPTS[::2] if (k == 3 or tier == "quick") else INPUT_OPTS, repeat=k):
             for order in itertools.permutations(range(k)):
                 yield dict(fam="mux", inputs=[list(x) for x in inputs], pal=pal, rs_list=True, rails=(sum(order) + k) % 2 == 0, order=list(order))
+            for j, (t, st) in enumerate(inputs, 1):
+                if t in ("SC", "SH", "SL") and k == 2:
+                    victim = {"SC": "C%d", "SH": "P%d", "SL": "G%d"}[t] % j
+                    yield dict(fam="mux", inputs=[list(x) for x in inputs], pal=pal, rs_list=True, rails=False, order=None, delete=victim)
+                    yield dict(fam="mux", inputs=[list(x) for x in inputs], pal=pal, rs_list=True, rails=False, order=[1, 0], delete=victim)
             if k == 2:
                 yield dict(fam="mux", inputs=[list(x) for x in inputs], pal=pal, rs_list=False, rails=False, order=None, remux=True)
                 yield dict(fam="mux", inputs=[list(x) for x in inputs], pal=pal, rs_list=False, rails=False, order=None, remux=True, below="none")
